@@ -715,6 +715,7 @@ def run_memory(ctx, P, cg):
     # and the consumers all go by it); whoever frees next_in directly does so under that test and no other (a frame flag, say,
     # is still set while next_in has already been handed on and freed)
     nfr = 0
+    nown = 0
     for f in P.own_functions():
         if f.base != "compression.c":
             continue
@@ -722,6 +723,7 @@ def run_memory(ctx, P, cg):
         owner = any(i.op == "store" and P.term(f, i.a[1])[0] == "field" and P.term(f, i.a[1])[3] == "next_in" and
                     Q.mentions(P.term(f, i.a[0]), lambda y: Q.is_call_to(y, ("malloc", "realloc"))) for i in f.all_insts())
         if owner:
+            nown += 1
             continue
         for c in f.calls("free"):
             t = P.term(f, c.a[0])
@@ -742,8 +744,8 @@ def run_memory(ctx, P, cg):
                        Q.must_pass(P, f, c.block, collecting) or Q.must_pass(P, f, c.block, reassembled),
                        "%s() frees strm_decomp.next_in neither under the test avail_in != 0 nor behind a successful reassemble(): next_in is only valid while that marker says a "
                        "message is being collected - under any other condition this frees a stale or foreign pointer" % f.srcname)
-    if nfr < 1:
-        raise AnalysisBroken("compression.c: no direct free of the reassembly buffer found (anchor: reassemble)")
+    if nown < 1:
+        raise AnalysisBroken("compression.c: the function that allocates the reassembly buffer (stores malloc/realloc into next_in) not found")
     # only data frames are compressed (RFC 7692 6.1: control frames are never compressed, RSV1 on them is a protocol error)
     sfw = P.fn("websocket.c:send_frame")
     tparam = [k for k, pr in enumerate(sfw.params) if pr["name"] == "type"]
